@@ -97,6 +97,41 @@ template <> struct TI<PMem> {
   static Val norm(Val v) { return Val(v.key % 4, v.pay); }
   static bool relocatable() { return true; }
 };
+// trivially default constructible, but with a user-provided copy assignment: "value-constructing" it by assigning T() onto raw storage runs an
+// assignment operator on an object that was never constructed (the assignment leaves a trace: it adds 1000)
+struct TDCA {
+  int v;
+  int w;
+  TDCA() = default;
+  TDCA(const TDCA &) = default;
+  TDCA &operator=(const TDCA &o) { v = o.v + 1000; w = o.w; return *this; }
+};
+template <> struct TI<TDCA> {
+  static const bool tracked = false;
+  static const char *name() { return "TDCA"; }
+  static void make(TDCA *p, int k, unsigned pay) { ::new (static_cast<void *>(p)) TDCA(); p->v = k; p->w = static_cast<int>(pay); }
+  static TDCA *construct_args(TDCA *d, int k, unsigned pay) { TDCA t; t.v = k; t.w = static_cast<int>(pay); return amc::construct_at(d, t); }
+  static Val val(const TDCA &x) { return Val(x.v, static_cast<unsigned>(x.w)); }
+  static Val norm(Val v) { return v; }
+  static bool relocatable() { return false; }
+};
+// implicit, non trivial default constructor (because of a member) and scalar members without initialiser: T() zero-initialises them first,
+// default-initialisation (new T without parentheses) leaves them indeterminate
+struct HasCtorMember { int z; HasCtorMember() : z(7) {} };
+struct NTDef {
+  int id;
+  unsigned tag;
+  HasCtorMember m;
+};
+template <> struct TI<NTDef> {
+  static const bool tracked = false;
+  static const char *name() { return "NTDef"; }
+  static void make(NTDef *p, int k, unsigned pay) { ::new (static_cast<void *>(p)) NTDef(); p->id = k; p->tag = pay; }
+  static NTDef *construct_args(NTDef *d, int k, unsigned pay) { NTDef t = NTDef(); t.id = k; t.tag = pay; return amc::construct_at(d, t); }
+  static Val val(const NTDef &x) { return x.m.z == 7 ? Val(x.id, x.tag) : Val(-7, 0u); }
+  static Val norm(Val v) { return v; }
+  static bool relocatable() { return false; }
+};
 template <int K> struct TI<Tracked<K> > {
   static const bool tracked = true;
   static const char *name() { return Tracked<K>::kname(); }
@@ -640,7 +675,7 @@ struct AlgoEngine : EngineBase {
       case A_DESTROY_AT: case A_DESTROY: case A_DESTROY_N: destroy_family<int>(algo); destroy_family<TC4>(algo); destroy_family<TR>(algo); destroy_family<NTR>(algo); break;
       case A_UCOPY: case A_UCOPY_N: { int f = algo - A_UCOPY; range_family<int>(algo, f); range_family<TC4>(algo, f); range_family<PMem>(algo, f); range_family<TR>(algo, f); range_family<NTR>(algo, f); range_family<NTR_TM>(algo, f); range_family<NTR_NCTM>(algo, f); hetero_family<NTR, NTR_MO>(algo, f); hetero_family<TR, NTR>(algo, f); break; }
       case A_UMOVE: case A_UMOVE_N: { int f = 2 + algo - A_UMOVE; range_family<int>(algo, f); range_family<TC4>(algo, f); range_family<TR>(algo, f); range_family<NTR>(algo, f); range_family<NTR_TM>(algo, f); range_family<NTR_NCTM>(algo, f); hetero_family<NTR, NTR_MO>(algo, f); hetero_family<TR, NTR>(algo, f); break; }
-      case A_UDEFAULT: case A_UDEFAULT_N: case A_UVALUE: case A_UVALUE_N: { int f = algo - A_UDEFAULT; ctor_family<int>(algo, f); ctor_family<TC4>(algo, f); ctor_family<PMem>(algo, f); ctor_family<TR>(algo, f); ctor_family<NTR>(algo, f); break; }
+      case A_UDEFAULT: case A_UDEFAULT_N: case A_UVALUE: case A_UVALUE_N: { int f = algo - A_UDEFAULT; ctor_family<int>(algo, f); ctor_family<TC4>(algo, f); ctor_family<PMem>(algo, f); ctor_family<TDCA>(algo, f); ctor_family<NTDef>(algo, f); ctor_family<TR>(algo, f); ctor_family<NTR>(algo, f); break; }
       case A_URELOC: case A_URELOC_N: { int f = 4 + algo - A_URELOC; range_family<int>(algo, f); range_family<TC4>(algo, f); range_family<TR>(algo, f); range_family<NTR>(algo, f); range_family<NTR_TM>(algo, f); range_family<NTR_NCTM>(algo, f); break; }
       case A_RELOC_AT: relocate_at_cells<int>(); relocate_at_cells<TC4>(); relocate_at_cells<TR>(); relocate_at_cells<NTR>(); relocate_at_cells<NTR_TM>(); relocate_at_cells<NTR_NCTM>(); break;
       case A_OVERLAP: overlap_cells<int>(); overlap_cells<TC4>(); overlap_cells<TR>(); break;
